@@ -461,11 +461,14 @@ def derive_kinds(it, f, args, out_dtype):
             vals.append(v)
         else:
             vals.append(a)
+    DERIVING[0] = True
     try:
         t = f(*vals)
         t = elem_of(t, out_dtype)
     except Unsupported:
         return top_of(out_dtype)
+    finally:
+        DERIVING[0] = False
     if it is not None:
         for c in it.run.pc:
             s.add(c)
@@ -607,6 +610,9 @@ def rdiv(a, b):
     return RDIV(a, b)
 
 
+DERIVING = [False]       # inside derive_kinds (abstract operands): library facts about throw-away operands are not recorded
+
+
 def xmul(a, b):
     return z3.If(z3.Or(X.is_nan(a), X.is_nan(b)), X.nan,
                  z3.If(z3.And(X.is_fin(a), X.is_fin(b)), X.fin(rmul(X.r(a), X.r(b))),
@@ -716,7 +722,11 @@ def sop(it, op, x, y):
                 for _ in range(y - 1):
                     out = xmul(out, a)
                 return out
-            return F_POW(a, b)
+            res = F_POW(a, b)
+            if not DERIVING[0] and it is not None and hasattr(it, 'run'):
+                # the only fact about the uninterpreted power: a positive finite base to a finite exponent is finite and non-negative
+                fact(it, z3.Implies(z3.And(X.is_fin(a), X.r(a) > 0, X.is_fin(b)), z3.And(X.is_fin(res), X.r(res) >= 0)))
+            return res
         raise Unsupported('float operator %s' % type(op).__name__)
     a, b = zi(x), zi(y)
     if isinstance(op, ast.Add):
